@@ -3,7 +3,7 @@
    the scan of Model/CRC.v.  Soundness and completeness of the per-slice counts are the scan theorems
    of Props/C16.v (every counted slice carries the bytes of a window matching its checksum pair;
    every cleanly present slice - in particular every slice of an undamaged file - is found). *)
-From Gopar Require Import Model.Base Model.CRC Model.GoPath Model.FS Model.Par2 Proofs.Par2Facts Proofs.Par2Verify Proofs.Par2Clean.
+From Gopar Require Import Model.Base Model.CRC Model.GoPath Model.FS Model.Par2 Proofs.Par2Facts Proofs.Par2Verify Proofs.Par2Clean Proofs.Par2Resync.
 Open Scope N_scope.
 
 (* "no repair needed" is reported only when every protected file is present with the recorded
@@ -58,3 +58,32 @@ Theorem C03_intact_means_clean : forall md5 ix fs ds st1,
   repair_needed (shard_counts ds) = false.
 Proof. exact intact_files_clean. Qed.
 Print Assumptions C03_intact_means_clean.
+
+(* INTACT RECOVERY BLOCKS IN DAMAGED RECOVERY FILES COUNT (after the fixes a78614b, fd379c2): the reader of a
+   recovery file skips whatever does not parse and resumes at the next magic sequence, and needs no creator
+   packet.  For ANY bytes before an intact recovery packet in which no complete packet starts (damaged packets,
+   garbage, a torn prefix: every magic occurrence starting there fails to parse) and ANY bytes after it: the
+   file is read exactly as if it began with that packet - the block is loaded (or a later, hash-valid but
+   contradictory packet makes the file an error; damage cannot) *)
+Theorem C03_intact_recovery_packet_survives : forall md5, (forall x, length (md5 x) = 16%nat) ->
+  forall sid body e d pre post,
+  length sid = 16%nat -> 64 + N.of_nat (length body) < 2 ^ 64 -> read_recv body = Ok (e, d) ->
+  let pk := write_packet md5 sid TYPE_RECV body in
+  no_packet_before md5 pre (pk ++ post) ->
+  read_file_vol md5 sid (pre ++ pk ++ post) =
+    read_file_go md5 (S (length post)) post (Some sid) true (recv_only_vol e d) /\
+  (read_file_vol md5 sid (pre ++ pk ++ post) = RFErr \/
+   exists f, read_file_vol md5 sid (pre ++ pk ++ post) = RFOk sid f /\ assoc_n (pf_recv f) e = Some d).
+Proof. exact read_file_intact_packets_survive_vol. Qed.
+Print Assumptions C03_intact_recovery_packet_survives.
+
+(* a recovery file that consists of one recovery packet and nothing else is accepted (the index reader would
+   reject it for want of a creator packet) *)
+Theorem C03_recovery_file_needs_no_creator : forall md5, (forall x, length (md5 x) = 16%nat) ->
+  forall sid body e d,
+  length sid = 16%nat -> 64 + N.of_nat (length body) < 2 ^ 64 -> read_recv body = Ok (e, d) ->
+  let pk := write_packet md5 sid TYPE_RECV body in
+  (exists f, read_file_vol md5 sid pk = RFOk sid f /\ pf_recv f = [(e, d)]) /\
+  read_file md5 (Some sid) pk = RFErr.
+Proof. exact read_file_vol_needs_no_creator. Qed.
+Print Assumptions C03_recovery_file_needs_no_creator.
